@@ -11,6 +11,13 @@
 (* The round trips are independent, so validation does not stop at the       *)
 (* first unexplained line: they are collected in `bad' with a class, so that *)
 (* known findings can be told from new violations.                           *)
+(*                                                                            *)
+(* Every predicate takes a set X of known-finding identifiers whose          *)
+(* relaxation is switched on.  The verdict of a line is computed with        *)
+(* X = {} (the property, nothing relaxed).  Only when that fails, Needed     *)
+(* switches on the findings whose SIGNATURE (configuration recorded in       *)
+(* known_findings.jsonl) matches the line, and reports those that are        *)
+(* necessary to explain it; if the line is still not explained it is "new".  *)
 EXTENDS ImageIO, TraceLib
 VARIABLES l, env, img, wr, bad
 
@@ -18,6 +25,27 @@ None == [e |-> "none"]
 G(gj) == [min |-> gj.min, size |-> gj.size, org |-> gj.org, vox |-> gj.vox]
 ExamOf(x) == ExamProj(x)
 EnvOf(r) == [native |-> r.native, defPT |-> r.defPT, defNM |-> r.defNM, defOther |-> r.defOther]
+
+(* identifiers of the known findings (known_findings.jsonl) *)
+K_ROUNDINT == "C10-roundint"        \* convert_range rounds through int: UINT/LONG/ULONG values beyond 2^31 steps overflow
+K_UFLOW == "C10-scale-underflow"    \* automatic scale underflows to 0 in single precision (DOUBLE always; 8-byte integers for tiny values): zeros are written
+K_NEGUNS == "C10-negunsigned"       \* non-positive image, unsigned type, automatic scale: data file short, success reported
+K_ROT == "C10-rotation"             \* patient rotation left/right written as "other"
+K_DEC6 == "C10-hdr6digits"          \* header numbers written with 6 significant digits
+K_NMOFF == "C10-nm-offsets"         \* NM (SPECT) dynamic/parametric Interfile images: "data offset in bytes" ignored on reading
+Findings == { K_ROUNDINT, K_UFLOW, K_NEGUNS, K_ROT, K_DEC6, K_NMOFF }
+
+(* ------------------------------------------------- 6-significant-digit arithmetic (K_DEC6) *)
+Digits10(n) == IF n < 10 THEN 1 ELSE IF n < 100 THEN 2 ELSE IF n < 1000 THEN 3 ELSE IF n < 10000 THEN 4 ELSE IF n < 100000 THEN 5
+               ELSE IF n < 1000000 THEN 6 ELSE IF n < 10000000 THEN 7 ELSE IF n < 100000000 THEN 8 ELSE IF n < 1000000000 THEN 9 ELSE 10
+\* a length of P eighths of a mm is P*125 thousandths of a mm; with 6 significant digits it is a multiple of q thousandths
+Dec6Quantum(P) == LET T == Abs(P) * 125 d == Digits10(T) IN IF d <= 6 THEN 1 ELSE 10 ^ (d - 6)
+Dec6Exact(P) == Abs(P) > 10000000 \/ (Abs(P) * 125) % Dec6Quantum(P) = 0
+\* largest rounding error in 1e-6 of 1/8 mm: q/2 thousandths of a mm = q * 4000
+Dec6Tol(P) == IF Dec6Exact(P) THEN 0 ELSE Dec6Quantum(P) * 4000
+\* a scale factor rounded to 6 significant digits is off by at most 5e-6 relative (< 2^-17)
+Dec6Slack(x) == 1 + Abs(x) \div 131072
+QNear(q, r, expected, extra) == q = expected /\ Abs(r) <= ResTol(expected) + extra
 
 (* ------------------------------------------------------------------ Img *)
 \* the driver's description of the image is coherent, and the positions reported by
@@ -42,136 +70,212 @@ Mabs(m) == LET a == SeqMax(m) b == SeqMin(m) IN IF -b > a THEN -b ELSE a
 \* extreme mantissas after UnsignedTruncation
 MMax(m) == LET a == SeqMax(m) IN IF a > 0 THEN a ELSE 0
 MMin(m, signed) == LET b == SeqMin(m) IN IF signed /\ b < 0 THEN b ELSE 0
+\* |v| / scale < 2^31 : the rounded value fits in an int
+FitsInt(mi, e, sm, se) == LtScaled(Abs(mi), sm, se + 31 - e)
 
 \* what the data set in the file must contain, given the values m*2^e handed to write_to_file
-DataSetOK(t, m, e, k, ds, bits) ==
-  LET nv == Len(m) signed == IsSigned(t) mmax == MMax(m) mmin == MMin(m, signed) IN
+\* range of the type as a power of two (DBL_MAX ~ 2^1024)
+RangeBits(t) == IF t = "DOUBLE" THEN 1024 ELSE MagBits(t)
+\* the scale needed for the automatic setting, max|v| * 1.01 / TypeMax, is below 2^-150, i.e. it is 0 as a float
+ScaleUnderflows(t, m, e) == Mabs(m) > 0 /\ LtScaled(Mabs(m), 1, RangeBits(t) - 151 - e)
+
+DataSetOK(t, m, e, k, ds, bits, X) ==
+  LET nv == Len(m) signed == IsSigned(t) mmax == MMax(m) mmin == MMin(m, signed)
+      exact == ExactStep(ds.sm, ds.se, e, k)
+      S == IF exact THEN P2(ds.se - e + k) ELSE ds.S IN
   /\ ds.complete /\ Len(ds.dec) = nv
-  /\ IF ~IsInt(t)
-     THEN \* "exactly for floating-point output"
-          /\ \A i \in 1..nv : ds.dec[i] = m[i] * P2(k)
-          /\ (t = "FLOAT" /\ ds.sm = 1 /\ ds.se = 0 => ds.sbits = bits)
-     ELSE /\ Len(ds.stored) = nv
-          /\ IF mmax = 0 /\ mmin = 0
-             THEN \A i \in 1..nv : ds.stored[i] = 0 /\ ds.dec[i] = 0           \* all-zero (after UnsignedTruncation)
-             ELSE /\ ds.sm > 0
-                  \* "which never overflows the chosen type"
-                  /\ NoOverflow(mmax, mmin, e, ds.sm, ds.se, MagBits(t), signed)
-                  /\ LET exact == ExactStep(ds.sm, ds.se, e, k)
-                         S == IF exact THEN P2(ds.se - e + k) ELSE ds.S IN
-                     \A i \in 1..nv :
-                       LET w == UnsignedTruncation(m[i], signed) * P2(k) IN
-                       /\ (m[i] < 0 /\ ~signed => ds.stored[i] = 0)               \* UnsignedTruncation
-                       /\ (m[i] = 0 => ds.stored[i] = 0)
-                       /\ ds.stored[i] * m[i] >= 0 \/ Abs(ds.stored[i]) >= SAT    \* sign kept
-                       \* "within half a quantisation step" (value the file defines: stored * scale)
-                       /\ WithinHalfStep(ds.dec[i], w, S, exact)
+  /\ \/ \* known finding: scale 0 and zeros in the file
+        K_UFLOW \in X /\ ScaleUnderflows(t, m, e) /\ ds.sm = 0 /\ \A i \in 1..nv : ds.dec[i] = 0
+     \/ IF ~IsInt(t)
+        THEN \* "exactly for floating-point output"
+             /\ \A i \in 1..nv : (ds.dec[i] = m[i] * P2(k))
+                                  \/ (K_DEC6 \in X /\ ds.sm # 1 /\ Abs(ds.dec[i] - m[i] * P2(k)) <= Dec6Slack(m[i] * P2(k)))
+             /\ (t = "FLOAT" /\ ds.sm = 1 /\ ds.se = 0 => ds.sbits = bits)
+        ELSE /\ Len(ds.stored) = nv
+             /\ IF mmax = 0 /\ mmin = 0
+                THEN \A i \in 1..nv : ds.stored[i] = 0 /\ ds.dec[i] = 0              \* all-zero (after UnsignedTruncation)
+                ELSE /\ ds.sm > 0
+                     \* "which never overflows the chosen type"
+                     /\ NoOverflow(mmax, mmin, e, ds.sm, ds.se, MagBits(t), signed)
+                     /\ \A i \in 1..nv :
+                          LET w == UnsignedTruncation(m[i], signed) * P2(k) IN
+                          /\ (m[i] < 0 /\ ~signed => ds.stored[i] = 0)                \* UnsignedTruncation
+                          /\ (m[i] = 0 => ds.stored[i] = 0)
+                          /\ \/ K_ROUNDINT \in X /\ ~FitsInt(m[i], e, ds.sm, ds.se)    \* known finding: voxels beyond the int range
+                             \/ /\ (m[i] > 0 => ds.stored[i] >= 0) /\ (m[i] < 0 => ds.stored[i] <= 0)      \* sign kept
+                                \* "within half a quantisation step" (of the value the file defines: stored * scale)
+                                /\ \/ WithinHalfStep(ds.dec[i], w, S, exact)
+                                   \/ K_DEC6 \in X /\ ~exact /\ Abs(ds.dec[i] - w) <= HalfStep(S) + Dec6Slack(w)
 
 \* named deviation UserScaleHonoured: a sufficient scale_to_write_data is used as it is
-UserScaleOK(r, t, m, e, ds) ==
+UserScaleOK(r, t, m, e, ds, X) ==
   (IsInt(t) /\ r.scaleM = 1 /\ Mabs(m) > 0 /\ UserScaleSufficient(Mabs(m), e, r.scaleE, MagBits(t)))
-     => (ds.sm = 1 /\ ds.se = r.scaleE)
+     => \/ ds.sm = 1 /\ ds.se = r.scaleE
+        \* known finding: 2^j itself is rounded to 6 significant digits in the header
+        \/ K_DEC6 \in X /\ LET tt == r.scaleE - ds.se IN tt >= 17 /\ tt <= 24 /\ Abs(ds.sm - P2(tt)) <= P2(tt - 17)
 
-HeaderOK(h, hi, r, t, g, boExp, dsPerFile) ==
+HeaderOK(h, r, t, g, boExp, dsPerFile, X) ==
   LET nv == NumVox(g) ex == img.exam fpo == Rev3(FirstPixelOffset(g)) vx == Rev3(g.vox) IN
   /\ h.present
   /\ h.bo = boExp /\ h.nf = NumberFormat(t) /\ h.bpp = Bytes(t)
   \* write_basic_interfile_image_header: matrix size, scaling factors (mm/pixel), first pixel offset, x,y,z order
   /\ h.labels = "xyz" /\ h.msize = Rev3(g.size)
-  /\ \A a \in 1..3 : QExact(h.vox[a], h.voxR[a], vx[a])
-  /\ h.hasFpo /\ \A a \in 1..3 : QExact(h.fpo[a], h.fpoR[a], fpo[a])
-  \* the data file has exactly the length the header announces
-  /\ h.dlen = dsPerFile * nv * h.bpp
+  /\ \A a \in 1..3 : QNear(h.vox[a], h.voxR[a], vx[a], IF K_DEC6 \in X THEN Dec6Tol(vx[a]) ELSE 0)
+  /\ h.hasFpo /\ \A a \in 1..3 : QNear(h.fpo[a], h.fpoR[a], fpo[a], IF K_DEC6 \in X THEN Dec6Tol(fpo[a]) ELSE 0)
+  \* the data file has exactly the length the header announces (known finding K_NEGUNS: shorter)
+  /\ h.dlen = dsPerFile * nv * h.bpp \/ (K_NEGUNS \in X /\ h.dlen < dsPerFile * nv * h.bpp)
   /\ h.mod = (IF ex.mod = "Unknown" THEN "-" ELSE ex.mod)
   /\ h.typeOfData = (IF ex.mod = "NM" THEN "Tomographic" ELSE "PET")
 
-WriteOK(r) ==
-  LET t == r.type g == G(img.geo[1]) nv == NumVox(g)
-      multi == img.fmt = "Multi"
-      \* named deviation ContainerNativeOrder: the Interfile formats for dynamic and parametric images
-      \* document that the byte order is fixed to the native one
-      boExp == IF img.kind = "single" \/ multi THEN r.bo ELSE env.native
-      nh == IF multi THEN img.nd ELSE 1
-      dsPerFile == IF multi THEN 1 ELSE img.nd IN
-  /\ r.id = img.id /\ r.ok /\ ~r.err
+\* named deviation ContainerNativeOrder: the Interfile formats for dynamic and parametric images
+\* document that the byte order is fixed to the native one
+BoExp(r) == IF img.kind = "single" \/ img.fmt = "Multi" THEN r.bo ELSE env.native
+NumHdrs == IF img.fmt = "Multi" THEN img.nd ELSE 1
+DsPerFile == IF img.fmt = "Multi" THEN 1 ELSE img.nd
+W_status(r) == r.id = img.id /\ r.ok /\ ~r.err
+W_format(r) == LET t == r.type IN
   /\ t \in Types /\ r.int = IsInt(t) /\ r.signed = IsSigned(t) /\ r.bytes = Bytes(t) /\ r.nf = NumberFormat(t)
-  /\ r.boEff = boExp /\ r.nfEff = NumberFormat(t) /\ r.bytesEff = Bytes(t)
-  /\ Len(r.hdrs) = nh
-  /\ \A hi \in 1..nh : HeaderOK(r.hdrs[hi], hi, r, t, g, boExp, dsPerFile)
+  /\ r.boEff = BoExp(r) /\ r.nfEff = NumberFormat(t) /\ r.bytesEff = Bytes(t)
+W_headers(r, X) ==
+  /\ Len(r.hdrs) = NumHdrs
+  /\ \A hi \in 1..NumHdrs : HeaderOK(r.hdrs[hi], r, r.type, G(img.geo[1]), BoExp(r), DsPerFile, X)
+W_layout(r, X) ==
   /\ Len(r.ds) >= img.nd /\ (img.kind # "single" => Len(r.ds) = img.nd)
-  /\ \A d \in 1..img.nd :
-       /\ r.ds[d].off = (IF multi THEN 0 ELSE (d - 1) * nv * Bytes(t))
-       /\ DataSetOK(t, img.m[d], img.vexp, img.k, r.ds[d], img.bits[d])
-       /\ UserScaleOK(r, t, img.m[d], img.vexp, r.ds[d])
+  /\ K_NEGUNS \in X \/ \A d \in 1..img.nd : r.ds[d].off = (IF img.fmt = "Multi" THEN 0 ELSE (d - 1) * NumVox(G(img.geo[1])) * Bytes(r.type))
+\* (K_NEGUNS: the data file is incomplete, its content is not examined)
+W_data(r, X) == K_NEGUNS \in X \/ \A d \in 1..img.nd : DataSetOK(r.type, img.m[d], img.vexp, img.k, r.ds[d], img.bits[d], X)
+W_userscale(r, X) == K_NEGUNS \in X \/ \A d \in 1..img.nd : UserScaleOK(r, r.type, img.m[d], img.vexp, r.ds[d], X)
+WriteOK(r, X) == W_status(r) /\ W_format(r) /\ W_headers(r, X) /\ W_layout(r, X) /\ W_data(r, X) /\ W_userscale(r, X)
 
 (* ----------------------------------------------------------------- Read *)
-GeomReadOK(gw, gr) ==
-  LET g0 == G(gw) ge == ReadGeom(g0) IN
+GeomReadOK(gw, gr, X) ==
+  LET g0 == G(gw) ge == ReadGeom(g0) fpo == FirstPixelOffset(g0)
+      extra == [a \in 1..3 |-> IF K_DEC6 \in X THEN Dec6Tol(fpo[a]) ELSE 0] IN
   \* index range re-normalised, origin recomputed from the first pixel offset
   /\ gr.min = ge.min /\ gr.size = ge.size
-  /\ \A a \in 1..3 : QExact(gr.org[a], gr.orgR[a], ge.org[a]) /\ QExact(gr.vox[a], gr.voxR[a], ge.vox[a])
+  /\ \A a \in 1..3 : QNear(gr.org[a], gr.orgR[a], ge.org[a], extra[a]) /\ QExact(gr.vox[a], gr.voxR[a], ge.vox[a])
   \* "preserves, for every voxel, its physical position": same offset from the minimum index <-> same position
   /\ Len(gr.pos) = Len(gw.pos)
   /\ \A j \in 1..Len(gw.pos) :
        /\ \A a \in 1..3 : gr.pos[j][a] = gw.pos[j][a]
-       /\ \A a \in 4..6 : QExact(gr.pos[j][a], gr.pos[j][a + 3], gw.pos[j][a])
+       /\ \A a \in 4..6 : QNear(gr.pos[j][a], gr.pos[j][a + 3], gw.pos[j][a], extra[a - 3])
 
-ValuesReadOK(t, m, k, e, ds, vals, rbits, wbits) ==
-  LET nv == Len(m) signed == IsSigned(t) IN
+ValuesReadOK(t, m, k, e, ds, vals, rbits, wbits, X) ==
+  LET nv == Len(m) signed == IsSigned(t)
+      exact == ExactStep(ds.sm, ds.se, e, k)
+      S == IF exact THEN P2(ds.se - e + k) ELSE ds.S IN
   /\ Len(vals) = nv
-  /\ IF ~IsInt(t)
-     THEN \* "exactly for floating-point output"
-          /\ \A i \in 1..nv : vals[i] = m[i] * P2(k)
-          /\ rbits = wbits
-     ELSE LET exact == ExactStep(ds.sm, ds.se, e, k)
-              S == IF exact THEN P2(ds.se - e + k) ELSE ds.S IN
-          \A i \in 1..nv :
-            LET w == UnsignedTruncation(m[i], signed) * P2(k) IN
-            \* "within half a quantisation step for scaled integer output"
-            /\ WithinHalfStep(vals[i], w, S, exact)
-            \* what STIR reads is what the file defines (own decoder), up to single-precision rounding
-            /\ (Len(ds.dec) = nv => IF exact THEN vals[i] = ds.dec[i] ELSE Abs(vals[i] - ds.dec[i]) <= FloatSlack(ds.dec[i]))
+  /\ \/ K_UFLOW \in X /\ ScaleUnderflows(t, m, e) /\ \A i \in 1..nv : vals[i] = 0        \* known finding: zeros
+     \/ IF ~IsInt(t)
+        THEN \* "exactly for floating-point output"
+             \/ (\A i \in 1..nv : vals[i] = m[i] * P2(k)) /\ rbits = wbits
+             \/ K_DEC6 \in X /\ ds.sm # 1 /\ \A i \in 1..nv : Abs(vals[i] - m[i] * P2(k)) <= Dec6Slack(m[i] * P2(k))
+        ELSE \A i \in 1..nv :
+               LET w == UnsignedTruncation(m[i], signed) * P2(k) IN
+               \/ K_ROUNDINT \in X /\ ds.sm > 0 /\ ~FitsInt(m[i], e, ds.sm, ds.se)
+               \/ \* "within half a quantisation step for scaled integer output"
+                  /\ \/ WithinHalfStep(vals[i], w, S, exact)
+                     \/ K_DEC6 \in X /\ ~exact /\ Abs(vals[i] - w) <= HalfStep(S) + Dec6Slack(w)
+                  \* what STIR reads is what the file defines (own decoder), up to single-precision rounding
+                  /\ (Len(ds.dec) = nv => IF exact THEN vals[i] = ds.dec[i] ELSE Abs(vals[i] - ds.dec[i]) <= FloatSlack(ds.dec[i]))
 
-ReadOK(r) ==
-  /\ r.id = img.id /\ r.ok /\ ~r.err
-  /\ r.nd = img.nd /\ Len(r.geo) = img.nd /\ Len(r.vals) = img.nd /\ Len(r.bits) = img.nd
-  /\ \A d \in 1..img.nd :
-       /\ GeomReadOK(img.geo[d], r.geo[d])
-       /\ ValuesReadOK(wr.type, img.m[d], img.k, img.vexp, wr.ds[d], r.vals[d], r.bits[d], img.bits[d])
-  \* "The exam information that the format stores ... survives the round trip."
-  /\ ExamOf(r.exam) = ExamStored(ExamOf(img.exam), env)
+\* "The exam information that the format stores ... survives the round trip."
+ExamExpected == ExamStored(ExamOf(img.exam), env)
+R_status(r) == r.id = img.id /\ r.ok /\ ~r.err
+R_shape(r) == r.nd = img.nd /\ Len(r.geo) = img.nd /\ Len(r.vals) = img.nd /\ Len(r.bits) = img.nd
+R_geom(r, X) == \A d \in 1..img.nd : GeomReadOK(img.geo[d], r.geo[d], X)
+\* known finding K_NMOFF: every data set after the first is read from offset 0, i.e. shows the data of the first
+\* (decided exactly when both have the same scale factor, not examined otherwise)
+NmOffRead(r, d) ==
+  LET d1 == wr.ds[1] dd == wr.ds[d] IN
+  /\ Len(r.vals[d]) = Len(img.m[d])
+  /\ (dd.sm = d1.sm /\ dd.se = d1.se /\ Len(d1.dec) = Len(r.vals[d])) =>
+        \A i \in 1..Len(r.vals[d]) : Abs(r.vals[d][i] - d1.dec[i]) <= FloatSlack(d1.dec[i])
+R_values(r, X) == \A d \in 1..img.nd :
+  IF K_NMOFF \in X /\ d >= 2 THEN NmOffRead(r, d)
+  ELSE ValuesReadOK(wr.type, img.m[d], img.k, img.vexp, wr.ds[d], r.vals[d], r.bits[d], img.bits[d], X)
+R_exam(r, X) == \/ ExamOf(r.exam) = ExamExpected
+                \* known finding: rotation right / left read back as other
+                \/ K_ROT \in X /\ ExamExpected.rot \in { 2, 3 } /\ ExamOf(r.exam) = [ExamExpected EXCEPT !.rot = 4]
+ReadOK(r, X) ==
+  \/ K_NEGUNS \in X /\ r.id = img.id /\ ~r.ok /\ r.err       \* known finding: the short file is (rightly) refused
+  \/ R_status(r) /\ R_shape(r) /\ R_geom(r, X) /\ R_values(r, X) /\ R_exam(r, X)
 
 (* ---------------------------------------------------------------- Trunc *)
 \* "A data file shorter than its header announces is reported as an error rather than returned as an image."
-TruncOK(r) ==
+TruncOK(r, X) ==
   /\ r.id = img.id /\ r.full = wr.hdrs[1].dlen /\ r.len >= 0 /\ r.len <= r.full
-  /\ (r.len < r.full => ~r.accepted)
+  /\ (r.len < r.full => \/ ~r.accepted
+                        \* known finding: only the first data set is ever read
+                        \/ K_NMOFF \in X /\ r.len >= r.full \div img.nd)
   /\ (r.len = r.full => r.accepted)
 
-Explains(r) ==
+Explains(r, X) ==
   CASE r.e = "Env" -> r.native \in { "LITTLEENDIAN", "BIGENDIAN" }
     [] r.e = "Img" -> ImgOK(r)
-    [] r.e = "Write" -> img # None /\ WriteOK(r)
-    [] r.e = "Read" -> img # None /\ wr # None /\ wr.id = img.id /\ ReadOK(r)
-    [] r.e = "Trunc" -> img # None /\ wr # None /\ wr.id = img.id /\ TruncOK(r)
+    [] r.e = "Write" -> img # None /\ WriteOK(r, X)
+    [] r.e = "Read" -> img # None /\ wr # None /\ wr.id = img.id /\ ReadOK(r, X)
+    [] r.e = "Trunc" -> img # None /\ wr # None /\ wr.id = img.id /\ TruncOK(r, X)
     [] OTHER -> FALSE
 
 (* ------------------------------------------------- known findings (signatures) *)
-\* An unexplained line is attributed to a known finding only by the signature recorded in
-\* known_findings.jsonl; everything else is "new".
-Classify(r) == "new"
+\* The configuration class of each known finding (the signature recorded in known_findings.jsonl).
+WType(r) == IF r.e = "Write" THEN r.type ELSE wr.type
+WScaleM(r) == IF r.e = "Write" THEN r.scaleM ELSE wr.scaleM
+WDs(r) == IF r.e = "Write" THEN r.ds ELSE wr.ds
+Sig(f, r) ==
+  /\ r.e \in { "Write", "Read", "Trunc" } /\ img # None /\ (r.e # "Write" => wr # None /\ wr.id = img.id)
+  /\ (r.e = "Trunc" => f = K_NMOFF)
+  /\ CASE f = K_ROUNDINT ->      \* a type wider than int, and a voxel more than 2^31 steps from zero
+            /\ WType(r) \in { "UINT", "LONG", "ULONG" }
+            /\ \E d \in 1..img.nd : d <= Len(WDs(r)) /\ WDs(r)[d].sm > 0
+                                    /\ ~FitsInt(Mabs(img.m[d]), img.vexp, WDs(r)[d].sm, WDs(r)[d].se)
+       [] f = K_UFLOW ->         \* scale_to_write_data = 0 and max|v| * 1.01 / TypeMax < 2^-150 (always for DOUBLE)
+            WScaleM(r) = 0 /\ \E d \in 1..img.nd : ScaleUnderflows(WType(r), img.m[d], img.vexp)
+       [] f = K_NEGUNS ->        \* unsigned type, automatic scale, a data set without positive values but with negative ones
+            /\ WType(r) \in { "UCHAR", "USHORT", "UINT", "ULONG" } /\ WScaleM(r) = 0
+            /\ \E d \in 1..img.nd : SeqMax(img.m[d]) <= 0 /\ SeqMin(img.m[d]) < 0
+       [] f = K_ROT -> r.e = "Read" /\ img.exam.rot \in { 2, 3 }        \* patient rotation right / left
+       [] f = K_NMOFF ->         \* modality NM, dynamic or parametric image in one Interfile file, more than one data set
+            r.e \in { "Read", "Trunc" } /\ img.exam.mod = "NM" /\ img.kind # "single" /\ img.fmt = "Interfile" /\ img.nd >= 2
+       [] f = K_DEC6 ->          \* a header number that needs more than 6 significant digits
+            \/ \E a \in 1..3 : ~Dec6Exact(FirstPixelOffset(G(img.geo[1]))[a])
+            \/ \E d \in 1..img.nd : d <= Len(WDs(r)) /\ WDs(r)[d].sm \notin { 0, 1 }
+       [] OTHER -> FALSE
 
+\* findings whose signature matches the line; if the line is explained with all of them switched on, those
+\* that cannot be switched off again are reported (each is necessary); otherwise the line is "new"
+Applicable(r) == { f \in Findings : Sig(f, r) }
+\* (all relaxations are disjuncts, so Explains is monotone in X; when several findings are each sufficient
+\* alone, one smallest explaining subset is reported)
+Needed(r) == LET A == Applicable(r) IN
+             IF A = { } \/ ~Explains(r, A) THEN { "new" }
+             ELSE LET N == { f \in A : ~Explains(r, A \ { f }) } IN
+                  IF N # { } THEN N
+                  ELSE CHOOSE Y \in SUBSET A : Explains(r, Y) /\ \A Z \in SUBSET A : Explains(r, Z) => Cardinality(Z) >= Cardinality(Y)
+
+\* first clause that an unexplained line fails (diagnosis only; printed with the line number)
+Why(r) ==
+  CASE r.e = "Write" /\ img # None ->
+         (IF ~W_status(r) THEN "W_status" ELSE IF ~W_format(r) THEN "W_format" ELSE IF ~W_headers(r, { }) THEN "W_headers"
+          ELSE IF ~W_layout(r, { }) THEN "W_layout" ELSE IF ~W_data(r, { }) THEN "W_data" ELSE "W_userscale")
+    [] r.e = "Read" /\ img # None /\ wr # None ->
+         (IF ~R_status(r) THEN "R_status" ELSE IF ~R_shape(r) THEN "R_shape" ELSE IF ~R_geom(r, { }) THEN "R_geom"
+          ELSE IF ~R_values(r, { }) THEN "R_values" ELSE "R_exam")
+    [] OTHER -> r.e
+
+Count(cls) == Len(SelectSeq(bad, LAMBDA x : x[2] = cls))
 Init == l = 1 /\ env = None /\ img = None /\ wr = None /\ bad = << >>
 Next == /\ l <= Len(TraceLog)
         /\ LET r == TraceLog[l] IN
            /\ env' = IF r.e = "Env" THEN EnvOf(r) ELSE env
            /\ img' = IF r.e = "Img" THEN r ELSE img
            /\ wr' = IF r.e = "Write" THEN r ELSE IF r.e = "Img" THEN None ELSE wr
-           /\ LET okr == Explains(r)
-                  cls == IF okr THEN "ok" ELSE Classify(r) IN
-              bad' = IF okr THEN bad
-                     ELSE IF cls = "new" THEN (IF Len(SelectSeq(bad, LAMBDA x : x[2] = "new")) < 500 THEN Append(bad, << l, cls >>) ELSE bad)
-                     ELSE (IF Len(SelectSeq(bad, LAMBDA x : x[2] = cls)) < 20 THEN Append(bad, << l, cls >>) ELSE bad)
+           /\ IF Explains(r, { }) THEN bad' = bad
+              ELSE LET N == Needed(r) why == Why(r)
+                       \* new unexplained lines are all kept (cap 500); of a known class only the first 30 witnesses
+                       add == SetToSeq({ f \in N : Count(f) < (IF f = "new" THEN 500 ELSE 30) }) IN
+                   bad' = bad \o [i \in 1..Len(add) |-> << l, add[i], why >>]
         /\ l' = l + 1
 Spec == Init /\ [][Next]_<< l, env, img, wr, bad >>
 
